@@ -5,6 +5,46 @@ from harness import *
 CSI_TOKENS = ['csi0', 'csi1', 'csi3', 'osc_bel0', 'osc_bel1', 'osc_st1', 'osc_bel3', 'osc_bel2', 'osc_st2']
 
 
+C10_TEMPLATES = [
+    '\x1b[31mre?\x1b[0m gr\u00bfen \x1b]8;;u\x07l?nk\x1b]8;;\x1b\\ \u203d',
+    'x? \u4f60\u597d?\u4e16\u754c a\u0301\u00bf ?\x1b[1;38;5;12mz',
+    '\x1b]0;t?tle\x07?\x1b[K\U0001f602\u203d\u200b?',
+]
+
+
+def static_vis(tmpl):
+    """visibility mask of a template whose sequences are all concrete and well-formed"""
+    vis = []
+    i = 0
+    n = len(tmpl)
+    while i < n:
+        if tmpl[i] != '\x1b':
+            vis.append(True)
+            i += 1
+            continue
+        j = i + 1
+        if tmpl[j] == '[':
+            j += 1
+            while not ('@' <= tmpl[j] <= '~'):
+                j += 1
+            j += 1
+        elif tmpl[j] == ']':
+            j += 1
+            while True:
+                if tmpl[j] == '\x07':
+                    j += 1
+                    break
+                if tmpl[j] == '\x1b' and tmpl[j + 1] == '\\':
+                    j += 2
+                    break
+                j += 1
+        else:
+            j += 1
+        vis += [False] * (j - i)
+        i = j
+    return vis
+
+
 class C10(Harness):
     prop = 'C10'
     features = ('full', 'nd')
@@ -22,6 +62,9 @@ class C10(Harness):
             out.append({'feat': feat, 'mode': 'anytext', 'n': 4 if q else 6})
             # per-scalar clause: one arbitrary character of each UTF-8 length class (all scalar values)
             out.append({'feat': feat, 'mode': 'scalar', 'n': 1})
+            # paragraph-sized well-formed texts: concrete CSI/OSC sequences, symbolic visible characters
+            for t in C10_TEMPLATES:
+                out.append({'feat': feat, 'mode': 'wellformed', 'n': 0, 'tmpl': t})
         return out
 
     def bounds_text(self, tier):
@@ -84,7 +127,16 @@ class C10(Harness):
     def run(self, I, cfg):
         mode = cfg['mode']
         n = cfg['n']
-        if mode == 'wellformed':
+        if mode == 'wellformed' and 'tmpl' in cfg:
+            # a symbolic payload character must not end its sequence: ESC and BEL excluded at symbolic positions
+            t = gen_tmpl(I, cfg['tmpl'], exclude=(ESC, 7))
+            vis = static_vis(cfg['tmpl'])
+            I.inputs = {'text': t, 'vis': vis}
+            w = I.run('display_width', [to_str(t)])
+            plain = Txt([c for c, v in zip(t.chars, vis) if v])
+            w2 = I.run('display_width', [to_str(plain)])
+            out = {'w': w, 'w_plain': w2}
+        elif mode == 'wellformed':
             t, vis = self.gen_wellformed(I, n)
             I.inputs = {'text': t, 'vis': vis}
             w = I.run('display_width', [to_str(t)])
